@@ -20,6 +20,7 @@ from __future__ import annotations
 
 import logging
 import math
+import os
 
 import mpmath as mp
 import numpy as np
@@ -34,19 +35,21 @@ from ..runner import HarnessError
 PROPERTY = "C09"
 LEVEL = "exploration"
 SHARDS = {"quick": 8, "thorough": 16}
-NUMBA_THREADS = {"quick": 2, "thorough": 1}
+# one numba/OpenMP thread per shard: the Lie-series kernels synchronise at barriers and a busy machine turns every barrier of a
+# 2-thread team into a scheduler quantum (measured: 1.5 s -> 50 s per case with 8 shards x 2 threads)
+NUMBA_THREADS = {"quick": 1, "thorough": 1}
+os.environ.setdefault("OMP_WAIT_POLICY", "PASSIVE")
 RULE = ("ladder case = (system, L1|L2, degree N, batch of directions u on S^3 with every |u_i| >= 0.14, r0); residuals are the "
         "RMS over the batch at radii r0*step^-k (step 2 for N<=6, sqrt2 above) walked down to the rounding floor; non-trivial = "
-        "both the round-trip and the energy residual have >= 2 consecutive log-ratios above 16x their rounding floor (>= 3 radii) "
-        "and the system is not Earth-Moon/Sun-Earth L1 degree<=6 at the amplitudes of the test-suite (always true: directions are "
-        "generated); section case = (manifold, section coordinate, constructed CM point on the section); non-trivial = the root "
-        "is bracketed according to this module's own evaluator; distinct by full input")
+        "both the round-trip and the energy residual have >= 2 consecutive log-ratios above 16x their rounding floor (>= 3 radii); "
+        "section case = (manifold, section coordinate, constructed CM point on the section); non-trivial = this module's own "
+        "evaluator finds exactly one root of H_cm = E in the library's bracket [0, 1e-3*2^k]; distinct by full input")
 ASSUMPTIONS = [
     "law: best of the (<=3) finest consecutive log-ratios of the batch-RMS residual >= N+1-0.5; only radii whose residual is >= 16x the rounding floor are used; fewer than 2 ratios => counted trivial, never failed; a round trip below the floor at every radius is accepted (exact inverse)",
     "rounding floor round trip: 2 eps |X_L| ||C^-1||_2 / gamma + 8 eps r (the synodic abscissa is stored with absolute error eps|X|, the local frame divides by gamma)",
     "rounding floor energy: [2 eps |X_L| max(1,||Hess Omega||_2) + 2 |grad E(to_synodic(0))|] ||C||_2 r / gamma + 8 eps sum|terms of H_cm| (the second term is the library's residual in locating the equilibrium, measured with the oracle in 40 digits; accuracy of the equilibrium itself is property C04)",
     "E(L_i) is evaluated at (point.position, 0); gamma = point.dynamics.gamma; C, C^-1 = point.normal_form_transform enter the tolerances only",
-    "section points are constructed with the conjugate coordinate > 0 (the library solves for the non-negative branch only) and energy := own evaluation of H_cm,N at the constructed point, so the root exists by construction; root tolerance |dm| <= 1e-12 + 4 eps m + 16 eps sum|terms| / |dH/dm| (Brent xtol=1e-12 in solve_missing_coord)",
+    "section points are constructed with the conjugate coordinate > 0 (the library solves for the non-negative branch only) and energy := own evaluation of H_cm,N at the constructed point, so the root exists by construction; root tolerance |dm| <= 1e-12 + 4 eps b + 32 eps sum|terms| / |dH/dm| (Brent xtol=1e-12 in solve_missing_coord)",
     "section tolerances on to_cm(s): 2x the measured 4-D round-trip error of the constructed point (its law is oracle (a)) + the root tolerance mapped through ||C^-1||/gamma",
 ]
 logging.disable(logging.CRITICAL)
@@ -57,7 +60,6 @@ CONJ = {"q2": "p2", "p2": "q2", "q3": "p3", "p3": "q3"}
 # documented in _CM_SECTION_TABLE / README: the plane of a q3|p3 section is (q2,p2), of a q2|p2 section (q3,p3)
 PLANE = {"q3": ("q2", "p2"), "p3": ("q2", "p2"), "q2": ("q3", "p3"), "p2": ("q3", "p3")}
 EMBED = (1, 4, 2, 5)          # [q2,p2,q3,p3] -> slots of (q1,q2,q3,p1,p2,p3)
-SUITE = {("earth", "moon"), ("sun", "earth")}
 
 
 # ------------------------------------------------------------------ oracle pieces
@@ -269,6 +271,11 @@ def _band(mu):
     return "mu<1e-7" if mu < 1e-7 else "mu<1e-5" if mu < 1e-5 else "mu<1e-3" if mu < 1e-3 else "mu<0.04" if mu < 0.04 else "mu>=0.04"
 
 
+def _ladder_only(case):
+    """Payload for a ladder verdict: the same case without its section conversions."""
+    return dict(case, sections=[])
+
+
 def _convert(ctx, case, m, p4, tag):
     """(s, q) through the public API; records a verdict and returns None on an exception / non-finite output."""
     try:
@@ -320,12 +327,14 @@ def eval_case(case, ctx):
     r0 = float(case["r0"])
     rt_rows, en_rows, table = [], [], []
     broken = False
+    if case.get("ladder") is False:      # replay of a section verdict
+        kmax = 0
     for k in range(kmax):
         r = r0 * step ** (-k)
         e_rt, e_en, habs = [], [], 0.0
         for u in dirs:
             p = r * u
-            out = _convert(ctx, case, m, p, "ladder r=%.4g" % r)
+            out = _convert(ctx, _ladder_only(case), m, p, "ladder r=%.4g" % r)
             if out is None:
                 broken = True
                 break
@@ -345,7 +354,7 @@ def eval_case(case, ctx):
     cls = ["N=%d" % N, "L%d" % int(case["point"]), "sys:" + case["sys"]["via"], _band(m.mu)]
     if broken:
         ctx.case(cls=cls + ["ladder:conversion-failed"])
-    else:
+    elif kmax > 0:
         rt_used, rt_best, rt_ok = _law(rt_rows, "rt", N, step)
         en_used, en_best, en_ok = _law(en_rows, "en", N, step)
         exact_rt = rt_ok == 0
@@ -366,13 +375,14 @@ def eval_case(case, ctx):
                 ex = ctx.extra.setdefault("min_slope_minus_order_per_shard:" + name, [99.0])
                 ex[0] = min(ex[0], best - (N + 1))
                 if best < want:
-                    kind = "gross" if best < 3.0 else "order-deficit"
-                    ctx.fail("%s-law:N%d:%s" % (name, N, kind), case,
+                    kind = "gross" if best < 2.5 else "order-deficit"
+                    ctx.fail("%s-law:N%d:%s" % (name, N, kind), _ladder_only(case),
                              "%s residual (RMS over %d directions) decays with log-ratio %.2f < N+1-0.5 = %.1f (finest ratios %s); %s at L%d mu=%.6g gamma=%.4g; %s"
                              % (name, len(dirs), best, want, ["%.2f" % v for v in used], "degree %d" % N, int(case["point"]), m.mu, m.gamma, "; ".join(table)))
     # ---- (c) section conversions
     for sec in case["sections"]:
-        eval_section(case, sec, m, ctx)
+        # payload of a section verdict: the manifold, one direction (unused by the section oracle) and that one section
+        eval_section(dict(case, dirs=case["dirs"][:1], sections=[sec], ladder=False), sec, m, ctx)
 
 
 def eval_section(case, sec, m, ctx):
@@ -428,7 +438,7 @@ def eval_section(case, sec, m, ctx):
     sd, qd = out
     r = float(np.linalg.norm(p4))
     e_rt = float(np.linalg.norm(qd - p4))
-    dm = 1e-12 + 4 * EPS * b + 16 * EPS * habs / dHdm
+    dm = 1e-12 + 4 * EPS * b + 32 * EPS * habs / dHdm
     tol_s = 3.0 * m.gamma * m.nC * dm + 8 * EPS * (1.0 + m.X)
     d_s = float(np.max(np.abs(s - sd)))
     if not d_s <= tol_s:
@@ -445,15 +455,17 @@ def eval_section(case, sec, m, ctx):
     dpl = max(abs(q[IDX4[pa]] - pt2[0]), abs(q[IDX4[pb]] - pt2[1]))
     if not dpl <= tol_q:
         ctx.fail("section:%s:plane-coordinates-not-reproduced" % c, case, "%s: to_cm(state) = %r, plane mismatch %.3g > %.3g" % (tag, q.tolist(), dpl, tol_q))
+    # |H(p4 + d) - H(p4)| <= |grad H| |d| + (second derivatives ~ 4 sum|terms| / r^2) |d|^2 with |d| <= 2 tol_q
     gn = float(np.linalg.norm(g))
-    tol_h = 2.0 * (gn + 4 * habs / max(r, 1e-300) * tol_q / max(r, 1e-300)) * 2.0 * tol_q + dHdm * dm + 16 * EPS * habs
+    dq = 2.0 * tol_q
+    tol_h = gn * dq + 4.0 * habs / (r * r) * dq * dq + dHdm * dm + 16 * EPS * habs
     dh = abs(pl.value(q) - E)
     if not dh <= tol_h:
         ctx.fail("section:%s:energy-level" % c, case, "%s: |H_cm(to_cm(state)) - energy| = %.3g > %.3g" % (tag, dh, tol_h))
     de_ref = abs(erel(m, sd) - E)
     de = abs(erel(m, s) - E)
     # gradient of the rescaled synodic energy w.r.t. the state, bounded by Hess * |s - s0| / gamma^2
-    tol_e = 2.0 * de_ref + 2.0 * m.hess * m.nC * r / m.gamma * tol_s + floor_en(m, r, habs)
+    tol_e = 2.0 * de_ref + 2.0 * m.hess * m.nC * r / m.gamma * 2.5 * tol_s + floor_en(m, r, habs)
     if not de <= tol_e:
         ctx.fail("section:%s:synodic-energy" % c, case,
                  "%s: |[E(state)-E(L)]/gamma^2 - energy| = %.3g > %.3g (same quantity through the 4-D path: %.3g)" % (tag, de, tol_e, de_ref))
@@ -465,13 +477,15 @@ def run(ctx):
         _selftest()
     except AssertionError as e:
         raise HarnessError("oracle self-test failed: %r" % (e,))
-    ctx.extra["section_root_tolerance"] = "1e-12 + 4 eps b + 16 eps sum|terms|/|dH/dm|"
+    ctx.extra["section_root_tolerance"] = "1e-12 + 4 eps b + 32 eps sum|terms|/|dH/dm|"
     if ctx.tier == "quick":
-        plan = [(4, 160), (6, 40)]
+        plan = [(4, 128), (6, 24)]
     else:
         plan = [(4, 2400), (6, 640), (8, 128), (10, 16)]
     for N, total in plan:
-        explore(ctx, "N%d" % N, cm_case(N), eval_case, ctx.share(total), shrink_calls=ctx.scale(6, 16))
+        # no Hypothesis shrink pass: one evaluation costs 1.5 s (N=4) .. 200 s (N=10) and the verdict payloads are already
+        # reduced to the failing part (ladder without sections / one section without ladder)
+        explore(ctx, "N%d" % N, cm_case(N), eval_case, ctx.share(total), shrink=False)
         _MAN.clear()
 
 
